@@ -119,6 +119,13 @@ impl SlabLayout {
 #[must_use]
 #[cfg_attr(test, mutants::skip)] // cargo-mutants does not understand how to deal with NonZero return value, so all the mutations are unviable.
 fn determine_capacity(slot_size: NonZero<usize>) -> NonZero<usize> {
+    // Verification hook: lets an out-of-tree harness force tiny slabs so that slab and
+    // vacancy-block boundaries are reachable in short operation histories.
+    #[cfg(folo_verif)]
+    if let Some(capacity) = crate::__verif::capacity_override() {
+        return capacity;
+    }
+
     // No matter what we are storing, we want at this this many objects per slab.
     // If we have overly tiny slabs, the slab management overhead could become significant.
     const MIN_CAPACITY: NonZero<usize> = nz!(32);
